@@ -28,6 +28,19 @@ func reviewedNormKey(site string) string {
 		}
 		return ""
 	}
+	if i := strings.Index(site, "#tokennil:"); i >= 0 {
+		// a token dereference is matched by (function, last field of the node path): the node of an
+		// interrogation state is the same whether it is read as ed.interrogationStates[tid].node
+		// or through a local copy of the state
+		rest := site[i+len("#tokennil:"):]
+		if k := strings.LastIndex(rest, "#"); k > 0 {
+			rest = rest[:k]
+		}
+		if j := strings.LastIndex(rest, "."); j >= 0 {
+			return site[:i] + "#tokennil:*" + rest[j:]
+		}
+		return site[:i] + "#tokennil:" + rest
+	}
 	i := strings.Index(site, "#assert:")
 	if i < 0 {
 		// other kinds: the construct as written, without its ordinal
